@@ -351,6 +351,21 @@ fn programs(thorough: bool) -> (Vec<Sx>, BTreeMap<String, u64>) {
             out.push(Sx::Vector(vec![u.clone(), Sx::Sym("b")]));
             out.push(Sx::List(vec![Sx::List(vec![Sx::Sym("k")]), Sx::Dotted(vec![Sx::Sym("answer")], Box::new(u.clone()))]));
             out.push(Sx::Dotted(vec![Sx::Sym("a")], Box::new(Sx::Dotted(vec![Sx::Sym("b")], Box::new(u.clone())))));
+            // an unquote directly followed by a group: the group is the next datum, not a call
+            // (seed C09-g2)
+            out.push(Sx::List(vec![u.clone(), Sx::List(vec![Sx::Int(1), Sx::Int(2)])]));
+            out.push(Sx::List(vec![Sx::Sym("a"), u.clone(), Sx::List(vec![]), Sx::Sym("b")]));
+            if i < 3 || i + 3 >= UNQ.len() {
+                out.push(Sx::Vector(vec![u.clone(), Sx::Dotted(vec![Sx::Sym("x")], Box::new(Sx::Sym("y")))]));
+                out.push(Sx::List(vec![u.clone(), Sx::Vector(vec![Sx::Sym("x")])]));
+                out.push(Sx::List(vec![u.clone(), Sx::Str("s", "s")]));
+                out.push(Sx::List(vec![u.clone(), Sx::Kw(0, "k")]));
+                out.push(Sx::List(vec![u.clone(), Sx::Punct("+"), Sx::Int(1)]));
+                out.push(Sx::List(vec![u.clone(), Sx::Punct("<="), Sx::Punct("...")]));
+                out.push(Sx::List(vec![Sx::Unq(i, true), Sx::Unq(i, true), Sx::List(vec![Sx::Unq(i, true)])]));
+                out.push(Sx::Dotted(vec![u.clone()], Box::new(Sx::List(vec![Sx::Int(1), Sx::Int(2)]))));
+                out.push(Sx::List(vec![u.clone(), Sx::True, Sx::Nil, Sx::Char("'c'", "#\\c")]));
+            }
         }
     }
     // exclusions
